@@ -564,9 +564,13 @@ func (w *rworld) saveOldest() bool {
 	if w.s.WriteErr {
 		// separate fault-injecting configuration: one write of this save's stream returns an I/O error (nothing is
 		// applied, nothing crashes); the caller sees the error and saves again, with the same objects
-		if fr := sim.NewRand(uint64(b.ver)*131 + uint64(idx)*7 + 1); fr.Chance(1, 2) {
+		if fr := sim.NewRand(uint64(b.ver)*131 + uint64(idx)*7 + 1); fr.Chance(1, 2) || len(b.ops) > 2000 {
 			before := w.disk.St.WriteErrs
-			w.disk.FailWrite = map[int]bool{w.disk.St.Writes + 1 + fr.Intn(3): true}
+			j := fr.Intn(3)
+			if fr.Chance(1, 3) {
+				j = fr.Intn(6) // a later write of a save that needs several batches
+			}
+			w.disk.FailWrite = map[int]bool{w.disk.St.Writes + 1 + j: true}
 			if w.guard("RecordDeadNodes/SaveChanges under a write error", save) {
 				return false
 			}
@@ -576,6 +580,14 @@ func (w *rworld) saveOldest() bool {
 				if err == nil {
 					w.fail("c04.save", "write-error-swallowed", "a write of the save of round %d failed with an injected I/O error and the save reported success", b.ver)
 					return false
+				}
+				if j == 0 && idx == len(w.blocks)-1 && len(b.mids) == 0 && fr.Chance(1, 2) {
+					// the very first write of the save (the dead-node record) failed: nothing of this block reached the
+					// store. Instead of trying again the caller gives the block up; the round is executed again later with
+					// whatever the script does next (another block for the same round).
+					w.blocks = w.blocks[:idx]
+					w.stats.Inc("probe.block-given-up-after-its-first-write-failed")
+					return true
 				}
 				w.stats.Inc("probe.save-retried-after-a-write-error")
 			}
@@ -633,6 +645,9 @@ func (w *rworld) saveOldest() bool {
 	}
 	if len(points) > 64 {
 		points = append(points[:32], points[len(points)-32:]...)
+	}
+	if len(b.ops) > 2000 && len(points) > 4 {
+		points = append(points[:2], points[len(points)-2:]...) // (a round of thousands of operations: re-executing it is expensive)
 	}
 	// power-loss variants: prefixes inside earlier rounds' streams, not before the last flush
 	lf := w.disk.LastFlush()
